@@ -8,6 +8,7 @@ import IronCalc.Eval.Spill
        F.<r>.<c>          user types a scalar formula
        D.<r>.<c>          user types a dynamic-array formula (anchor, not yet evaluated)
        X.<r>.<c>          user clears the cell
+       A.<r>.<c>.<w>.<h>  user enters a fixed-range (CSE) array formula over w columns, h rows
        E.<a>_<a>…         evaluate: the dynamic anchors in evaluation order, each `r,c,h,w`
                           (h = 0: the formula produced a scalar)
   Answer: after every `E`, the structure of the sheet — the non-empty cells in (row, column)
@@ -88,6 +89,20 @@ def evalOne (s : Sheet) (spec : String) : Sheet :=
     | _, _, _, _ => s
   | _ => s
 
+/-- phase 2 for fixed-range arrays: every CSE anchor, in natural order, as the sheet is when its
+    turn comes (an anchor overwritten by an earlier one is no anchor any more) -/
+def evalCseAll (s : Sheet) : Sheet :=
+  let keys := ((s.map (·.1)).toArray.qsort lt).toList
+  keys.foldl (fun s k =>
+    match toGrid s k.1 k.2 with
+    | .anchor .cse w h _ => ofGrid (evalCse (toGrid s) k.1 k.2 0) (keysOf s (block k.1 k.2 h w))
+    | _ => s) s
+
+def cseOp (s : Sheet) (r c w h : Nat) : Sheet :=
+  match userSetCse 3 (toGrid s) r c w h with
+  | none => s
+  | some g => ofGrid g (keysOf s (block r c h w))
+
 def step (st : Sheet × List String) (op : String) : Sheet × List String :=
   let (s, out) := st
   match op.splitOn "." with
@@ -99,8 +114,13 @@ def step (st : Sheet × List String) (op : String) : Sheet × List String :=
     | some (r, c) => (userOp s r c (.anchor .dyn 1 1 3), out) | none => st
   | "X" :: r :: c :: _ => match nat3 [r, c] with
     | some (r, c) => (userOp s r c .empty, out) | none => st
+  | "A" :: r :: c :: w :: h :: _ =>
+    match r.toNat?, c.toNat?, w.toNat?, h.toNat? with
+    | some r, some c, some w, some h => (cseOp s r c w h, out)
+    | _, _, _, _ => st
   | ["E", anchors] =>
-    let s' := if anchors == "-" then s else (anchors.splitOn "_").foldl evalOne s
+    let s1 := if anchors == "-" then s else (anchors.splitOn "_").foldl evalOne s
+    let s' := evalCseAll s1
     (s', out ++ [dump s'])
   | _ => st
 
